@@ -88,6 +88,20 @@ def enumerate_cases(tier):
         cfg = {"upem": 1024, "ascender": 950, "descender": -250, "width": 1275, "linegap": 0, "color_format": fmt, "transform": [1, 0, 0, 1, 0, 0], "reuse_tolerance": 0.1,
                "clipbox_quantization": None, "keep_glyph_names": fmt != "picosvg", "pretty_print": False}
         yield {"kind": "nano", "fmt": fmt, "vc": {"cfg": cfg, "sources": sources}, "flags": {"bitmaps": False, "colr_version": 1, "keep_glyph_names": False}}
+    # CFF / CFF2 flavoured COLR inputs without any layout table (single codepoints only), in which glyphs 0 and 2 share a shape
+    # and glyph 1 does not: the added SVG documents force a new glyph order onto a font whose outlines live in a charset
+    for fmt in ("cff_colr_0", "cff_colr_1", "cff2_colr_0", "cff2_colr_1", "glyf_colr_0"):
+        sources = []
+        for i in range(4):
+            own = {"t": "p", "d": [["M", 55.0 + i, 55.0], ["L", 92.0 - 3 * i, 60.0], ["L", 70.0, 94.0 - 4 * i], ["Z"]], "fill": {"k": "solid", "c": "#%02x50%02x" % (240 - 30 * i, 40 * i)}, "op": 1.0, "tag": "fresh"}
+            nodes = [own]
+            if i in (0, 2):
+                x = 6.0 + 9.0 * i
+                nodes.insert(0, {"t": "p", "d": [["M", x, 8.0], ["L", x + 32.0, 12.0], ["L", x + 26.0, 40.0], ["L", x + 4.0, 30.0], ["Z"]], "fill": {"k": "solid", "c": "#2060%02x" % (90 + 40 * i)}, "op": 1.0, "tag": "lib0:translate"})
+            sources.append({"model": {"vb": [0.0, 0.0, 100.0, 100.0], "nodes": nodes}, "cps": [0x1F600 + i]})
+        cfg = {"upem": 1024, "ascender": 950, "descender": -250, "width": 1275, "linegap": 0, "color_format": fmt, "transform": [1, 0, 0, 1, 0, 0], "reuse_tolerance": 0.1,
+               "clipbox_quantization": None, "keep_glyph_names": True, "pretty_print": False}
+        yield {"kind": "nano", "fmt": fmt, "vc": {"cfg": cfg, "sources": sources}, "flags": {"bitmaps": False, "colr_version": 1, "keep_glyph_names": True}}
     rows = list(c13.fixed_rows())
     for i, third in enumerate(rows):
         third = dict(third, interleave=bool(i % 2))
@@ -281,6 +295,9 @@ def judge(case):
                 if outline_of(fin, gs_in, ga) != outline_of(fout, gs_out, gb):
                     v.fail("outline-changed", "non-colour glyph outline", {"text": t})
                 continue
+            # "existing outlines" includes the colour glyph's own outline (a COLRv0 base glyph's extents, a self-layer)
+            if outline_of(fin, gs_in, ga) != outline_of(fout, gs_out, gb):
+                v.fail("outline-changed", "colour glyph's own outline", {"text": t, "in": str(outline_of(fin, gs_in, ga))[:200], "out": str(outline_of(fout, gs_out, gb))[:200]})
             ncolour += 1
             # original table kept
             res, _ = compare_trees(tb, ta, Budget("exact", upem, extra_tau=0.01))
